@@ -243,7 +243,42 @@ func (c08) Generate(r *sim.Rand, tier string) *sim.Scenario {
 		sc.Steps = append(sc.Steps, st)
 		return st.Out, true
 	}
-	if r.Bool(0.0015) {
+	if r.Bool(0.001) {
+		// big flavour: one tracked leaf of more than 16384 elements goes through
+		// transpose / reduce / back-propagate / reset cycles (size-triggered code
+		// paths such as per-tensor caches of large results)
+		rows, cols := r.Range(128, 140), r.Range(129, 150)
+		lf := sim.Step{C: 0, Op: "tensorof", Out: ids.New(), B: true, I: []int{rows, cols}, F: randData(r, rows*cols, false)}
+		if addShadow(lf) {
+			sc.Steps = append(sc.Steps, lf)
+			m.t[lf.Out] = &m08{exists: true, tracked: true, client: 0}
+			live = append(live, lf.Out)
+			for cyc, ncyc := 0, r.Range(2, 3); cyc < ncyc; cyc++ {
+				t1, ok := explicit(0, sim.Step{Op: "transpose", In: []int{lf.Out}})
+				if !ok {
+					break
+				}
+				s1, ok := explicit(0, sim.Step{Op: []string{"sumalong", "meanalong"}[r.Intn(2)], In: []int{t1}, I: []int{r.Intn(2)}})
+				if !ok {
+					break
+				}
+				if cyc < ncyc-1 {
+					if !m.backpropAllowed(s1) {
+						break
+					}
+					m.applyBackprop(s1)
+					sc.Steps = append(sc.Steps, sim.Step{C: 0, Op: "backprop", In: []int{s1}, Out: -1})
+					if !m.resetAllowed(lf.Out) {
+						break
+					}
+					n0 := m.t[lf.Out]
+					*n0 = m08{exists: true, tracked: true, children: n0.children, client: n0.client, wasReset: true}
+					sc.Steps = append(sc.Steps, sim.Step{C: 0, Op: "reset", In: []int{lf.Out}, B: true, Out: -1})
+				}
+			}
+		}
+		nsteps = r.Range(0, 4)
+	} else if r.Bool(0.0015) {
 		// wide flavour: one intermediate with hundreds of consumers, combined by a
 		// balanced tree of additions (hundreds of contexts ready at once, one
 		// tensor receiving hundreds of upstream gradients); back-propagated by the
